@@ -51,3 +51,49 @@ Lemma where_rows :
   && forallb (fun k => match assoc key3_eqb (OpWHERE, KSet, k) expr_functions with Some G_whereSet => true | _ => false end)
           [KNoArg; KBool; KInt; KFloat; KString; KList; KSet; KMap; KNull] = true.
 Proof. reflexivity. Qed.
+
+(* ---- call resolution ---- *)
+(* evalCall looks a name up among the application's views FIRST, then among the "."-builtins, and hands it to the
+   native helper table only when neither knows it *)
+Lemma call_order_views_first : call_order = [CallView; CallDot; CallGoFunc].
+Proof. reflexivity. Qed.
+(* a called view's body runs in a fresh scope holding only its parameters *)
+Lemma call_scope_fresh : call_scope = CsFresh.
+Proof. reflexivity. Qed.
+
+Lemma eval_call_eq : forall ev vs sc fn args,
+  eval_call ev vs sc fn args =
+  match assoc String.eqb fn vs with
+  | Some v =>
+      if negb (Nat.eqb (List.length (v_params v)) (List.length args)) then Ok (VNil, sc)
+      else
+        '(avs, sc1) <- eval_seq ev args sc ;;
+        '(r, _) <- ev (bind_params (v_params v) avs []) (v_body v) ;;
+        Ok (r, sc1)
+  | None =>
+      match is_dot_func fn with
+      | Some f => call_dot ev sc f args
+      | None => call_go_func ev sc fn args
+      end
+  end.
+Proof.
+  intros. unfold eval_call. rewrite call_order_views_first. cbn [resolve_call].
+  destruct (assoc String.eqb fn vs); [unfold call_view; rewrite call_scope_fresh|]; reflexivity.
+Qed.
+
+(* the helper table has the 21 names the model knows an implementation (or "not modelled") for, each bound to a known
+   Go function with known argument types *)
+Definition gimpl_known (f:gimpl) : bool := match f with I_unknown => false | _ => true end.
+Definition gty_known (t:gty) : bool := match t with GtUnknown => false | _ => true end.
+Lemma go_func_map_known :
+  forallb (fun p => match snd p with (f, ts, t) => gimpl_known f && forallb gty_known ts && gty_known t end) go_func_map = true.
+Proof. reflexivity. Qed.
+
+(* a helper whose result is an empty slice: reflectToValue tests the length before it looks at element 0 (fixes/C10-4) *)
+Lemma slice_result_guarded : slice_result_guard = SliceLenGuarded.
+Proof. reflexivity. Qed.
+
+(* no function of exprEval.go assigns to the body type of a view: the module passed to EvaluateView is not written to
+   (fixes/C10-5; the model's program is a Gallina value, so this is the whole of "the module is unchanged") *)
+Lemma module_not_written : eval_writes_view_type = false.
+Proof. reflexivity. Qed.
